@@ -4,6 +4,7 @@ import LettreVerif.Model.Date
 import LettreVerif.Proofs.Date
 import LettreVerif.Proofs.Peg
 import LettreVerif.Proofs.DateText
+import LettreVerif.Proofs.TypedHdr
 /-!
 # C17 — Mailboxes and typed headers read back equal to what was stored
 
@@ -177,5 +178,32 @@ example :
     (show1 ⟨some ['x', ',', '"', 'y'], ['a', '.', 'b', '@', 'c', '.', 'd']⟩).bind (parse1 e) =
       some ⟨some ['x', ',', '"', 'y'], ['a', '.', 'b', '@', 'c', '.', 'd']⟩ :=
   ⟨addrClassB_sound _ ['a', '.', 'b'] ['c', '.', 'd'] (by decide) (by rfl), by decide⟩
+
+/-! ## MIME-Version and Content-Transfer-Encoding (`Model/TypedHdr.lean`) -/
+
+/-- **Every MIME version reads back**: for all 256 × 256 values, the text `MimeVersion::display` writes
+    (`{major}.{minor}`) is parsed by `MimeVersion::parse` (`split('.')`, `u8::from_str` on the first two pieces) to the
+    same pair. -/
+theorem mime_version_roundtrip (a b : Nat) (ha : a < 256) (hb : b < 256) :
+    TypedHdr.mimeParse (TypedHdr.mimeDisplay a b) = some (a, b) := TypedHdr.mime_roundtrip a b ha hb
+
+/-- whatever text is parsed, an accepted version is a pair of octets (no wrap-around: `256.0` is refused) -/
+theorem mime_version_parse_in_range (s : Bytes) (a b : Nat) (h : TypedHdr.mimeParse s = some (a, b)) :
+    a < 256 ∧ b < 256 := TypedHdr.mime_parse_range s a b h
+
+/-- **Every Content-Transfer-Encoding reads back**, the five spellings are pairwise different, and the parser accepts
+    nothing but these five spellings (so two different stored values never read back as the same one). -/
+theorem cte_roundtrip (c : TypedHdr.Cte) : TypedHdr.cteParse (TypedHdr.cteDisplay c) = some c := TypedHdr.cte_roundtrip c
+
+theorem cte_parse_exact (s : Bytes) (c : TypedHdr.Cte) (h : TypedHdr.cteParse s = some c) : s = TypedHdr.cteDisplay c :=
+  TypedHdr.cte_parse_exact s c h
+
+/-- non-vacuity and the edges of `u8::from_str`: a leading `+` and leading zeros are read, a third piece is ignored,
+    256 / an empty piece / a sign alone / a blank are refused; the encoding is compared exactly (letter case included) -/
+example : TypedHdr.mimeDisplay 1 0 = str "1.0" ∧ TypedHdr.mimeDisplay 255 17 = str "255.17" ∧
+    TypedHdr.mimeParse (str "+1.007.9") = some (1, 7) ∧ TypedHdr.mimeParse (str "256.0") = none ∧
+    TypedHdr.mimeParse (str "1.") = none ∧ TypedHdr.mimeParse (str "1") = none ∧ TypedHdr.mimeParse (str "+.1") = none ∧
+    TypedHdr.mimeParse (str " 1.0") = none ∧ TypedHdr.cteParse (str "base64") = some .base64 ∧
+    TypedHdr.cteParse (str "Base64") = none := by decide
 
 end LV.C17
